@@ -36,7 +36,7 @@ M_WIT = ["order_record", "cancel_record", "fill_record", "multi_fill_records", "
 def run(tier, seed):
     res = run_r("C10", tier, seed, scenarios(tier), [acc_C10], 2 if tier == "quick" else 3, on_exc, WIT, RULE)
     from ..families import cross_family
-    run_r("C10", tier, seed, cross_family(tier, with_no_logger=False), [acc_C10], 1 if tier == "quick" else 2, on_exc, [], RULE, res=res, label="cross_family", split=0)
+    run_r("C10", tier, seed, cross_family(tier, with_no_logger=False), [acc_C10], 1, on_exc, [], RULE, res=res, label="cross_family", split=0)
     # market-level half on Engine M: what the logger receives during each single market operation
     from ._m import ALPH, SEEDS_Q
     from ..explore_m import run_m_check
